@@ -84,6 +84,11 @@ func conformantSSO(rng *rand.Rand) *ssoCase {
 	if rng.Intn(4) == 0 {
 		d.EncCert = keys.Get("sp3") // an encryption key listed in front of the signing key
 	}
+	if rng.Intn(6) == 0 && len(d.ACS) >= 1 {
+		// one consumer URL registered for two bindings, the answerable one listed second
+		first := d.ACS[0]
+		d.ACS = append([]spsim.ACS{{Binding: spsim.BindArtifact, Location: first.Location, Index: "100"}}, d.ACS...)
+	}
 	c.SPD = d
 	required := d.AuthnRequestsSigned == "true" || d.AuthnRequestsSigned == "1" || c.Want == "true" || c.Want == "1"
 	c.Signed = required || rng.Intn(2) == 0
@@ -98,9 +103,15 @@ func conformantSSO(rng *rand.Rand) *ssoCase {
 	a := validAuthn(rng, d)
 	switch rng.Intn(4) {
 	case 0:
-		a.ProtocolBinding = d.ACS[rng.Intn(len(d.ACS))].Binding
+		if b := d.ACS[rng.Intn(len(d.ACS))].Binding; b == spsim.BindPost || b == spsim.BindRedirect {
+			a.ProtocolBinding = b
+		}
 	case 1:
-		a.ACSURL = d.ACS[rng.Intn(len(d.ACS))].Location
+		k := rng.Intn(len(d.ACS))
+		a.ACSURL = d.ACS[k].Location
+		if rng.Intn(2) == 0 && (d.ACS[k].Binding == spsim.BindPost || d.ACS[k].Binding == spsim.BindRedirect) {
+			a.ProtocolBinding = d.ACS[k].Binding // the pair the request names is a registered one
+		}
 	case 2:
 		a.ACSIndex = d.ACS[rng.Intn(len(d.ACS))].Index
 	}
